@@ -36,6 +36,17 @@ func TTL(k int) time.Duration { return time.Duration(k)*U + U/2 }
 // part of a scripted fault). A run with such lines is reported as a machinery failure, never as a verdict.
 var envTrouble int64
 var envSample atomic.Value
+var expectTimeouts int32
+
+// ExpectTimeouts: while set, client timeouts are part of the scripted fault (an authenticator told to hang) and not
+// counted as a degraded environment.
+func ExpectTimeouts(on bool) {
+	v := int32(0)
+	if on {
+		v = 1
+	}
+	atomic.StoreInt32(&expectTimeouts, v)
+}
 
 type logScan struct{}
 
@@ -44,7 +55,7 @@ func (logScan) Write(p []byte) (int, error) {
 	// (a failed name lookup or a refused connection is NOT among them: a changed proxy may well try to reach a backend
 	// that does not exist - that is behaviour to be judged, not a degraded environment)
 	if strings.Contains(s, "too many open files") || strings.Contains(s, "cannot assign requested address") ||
-		strings.Contains(s, "Client.Timeout exceeded") || strings.Contains(s, "i/o timeout") {
+		((strings.Contains(s, "Client.Timeout exceeded") || strings.Contains(s, "i/o timeout")) && atomic.LoadInt32(&expectTimeouts) == 0) {
 		if atomic.AddInt64(&envTrouble, 1) == 1 {
 			if len(s) > 400 {
 				s = s[:400]
